@@ -47,6 +47,7 @@ type Layout struct {
 	Macros     bool
 	Includes   bool
 	FlatIndent bool // no indentation at all
+	Gaps       bool // several blanks or tabs between the tokens of a directive line and around the annotation text
 }
 
 func RandomLayout(r *rand.Rand) *Layout {
@@ -59,6 +60,7 @@ func RandomLayout(r *rand.Rand) *Layout {
 	l.BlockAnn = r.Intn(3) == 0
 	l.ExplicitP = []int{0, 30, 100, 50}[r.Intn(4)]
 	l.Standalone = []int{0, 50, 100}[r.Intn(3)]
+	l.Gaps = r.Intn(3) == 0
 	l.Macros = r.Intn(3) == 0
 	l.Includes = r.Intn(3) == 0
 	l.FlatIndent = r.Intn(5) == 0
@@ -462,19 +464,31 @@ func dirBlock(d *RDir, depth int, l *Layout) block {
 		if l.Trailing && l.R.Intn(3) == 0 {
 			sep = "  "
 		}
+		if l.Gaps {
+			sep = []string{" ", "  ", "\t", " \t", "    ", "\t\t"}[l.R.Intn(6)]
+		}
 		line += sep
 		addTok("property", len(line), len(line)+len(q)-1, 0, q)
 		line += q
 	}
 	if d.Annotation != "" {
+		pre, in1, in2 := " ", " ", " "
+		if l.Gaps {
+			pre = []string{" ", "  ", "\t", "   \t"}[l.R.Intn(4)]
+			in1 = []string{"", " ", "   ", "\t"}[l.R.Intn(4)]
+			in2 = []string{"", " ", "  ", "\t "}[l.R.Intn(4)]
+		}
 		if l.BlockAnn {
-			line += " /* "
+			line += pre + "/*" + in1
 			addTok("annotation", len(line), len(line)+len(d.Annotation)-1, 0, d.Annotation)
-			line += d.Annotation + " */"
+			line += d.Annotation + in2 + "*/"
 		} else {
-			line += " // "
+			line += pre + "//" + in1
 			addTok("annotation", len(line), len(line)+len(d.Annotation)-1, 0, d.Annotation)
 			line += d.Annotation
+			if l.Gaps {
+				line += in2
+			}
 		}
 	} else if l.Trailing && l.R.Intn(3) == 0 {
 		line += "  "
